@@ -668,10 +668,10 @@ func max(a, b int) int {
 
 func TestProp(t *testing.T) {
 	vt.Main(t, vt.Spec[Case]{
-		ID:   "C13",
-		Rule: "rapid-generated cases in four modes: (roundtrip) for every method registered in the test binary (puppet service with a message of every scalar kind, nested/repeated/map/oneof/enum/unknown fields, plus the repository's own test services) and both directions a reflectively generated payload and metadata (any message id, status with any code/text/Any details) must survive Marshal+Unmarshal with equal content and the right type; (decode) frames derived from valid ones by structure-aware mutation (truncation at boundaries, hostile/short/long length prefixes, swapped or spliced sections, method replaced by the name of every non-method registry entity / unknown / empty / long / non-UTF-8 names, byte flips) and plain noise must never panic; (e2e-frame) the same frames written raw to a live server's NodeStream must not panic its stream goroutine and a following probe must be answered; (e2e-status) a handler's status code and message must reach an RPC caller unchanged. Non-trivial = payload with a populated non-scalar field or status with details (roundtrip), a frame that differs from a valid one but is not noise (decode/e2e-frame), every e2e-status case",
-		Gen:  gen,
-		Run:  run,
+		ID:           "C13",
+		Rule:         "rapid-generated cases in four modes: (roundtrip) for every method registered in the test binary (puppet service with a message of every scalar kind, nested/repeated/map/oneof/enum/unknown fields, plus the repository's own test services) and both directions a reflectively generated payload and metadata (any message id, status with any code/text/Any details) must survive Marshal+Unmarshal with equal content and the right type; (decode) frames derived from valid ones by structure-aware mutation (truncation at boundaries, hostile/short/long length prefixes, swapped or spliced sections, method replaced by the name of every non-method registry entity / unknown / empty / long / non-UTF-8 names, byte flips) and plain noise must never panic; (e2e-frame) the same frames written raw to a live server's NodeStream must not panic its stream goroutine and a following probe must be answered; (e2e-status) a handler's status code and message must reach an RPC caller unchanged. Non-trivial = payload with a populated non-scalar field or status with details (roundtrip), a frame that differs from a valid one but is not noise (decode/e2e-frame), every e2e-status case",
+		Gen:          gen,
+		Run:          run,
 		TrackCurrent: false,
 	})
 }
